@@ -182,6 +182,7 @@ class Interp(AutoEvaluator):
         self.depth = 0
         self.root_env = {}
         self.raised = False
+        self.tag_conversions = False    # True: np.asarray / np.atleast_nd(x) is the value arr(x), not x
 
     # ------------------------------------------------------------------ entry points
     def run_function(self, fn, args=None):
@@ -513,12 +514,18 @@ class Interp(AutoEvaluator):
                     return Unknown("dict with computed keys")
                 r.fields[ks] = self.ev(v)
             return r
-        if isinstance(node, ast.Compare) and len(node.ops) > 1:
-            # a == b == c  ->  conjunction of the links
-            vals = [self._ev(node.left)] + [self._ev(c) for c in node.comparators]
-            if not all(is_rat(v) for v in vals):
-                return Unknown("comparison chain")
-            return F.fn("bool:And", *[F.fn("cmp:" + type(op).__name__, vals[i], vals[i + 1]) for i, op in enumerate(node.ops)])
+        if isinstance(node, ast.Compare):
+            # a == b == c  ->  conjunction of the links; a tuple operand is a value of its own
+            vals = []
+            for x in [node.left] + list(node.comparators):
+                v = self._ev(x)
+                if isinstance(v, tuple) and all(is_rat(y) for y in v):
+                    v = F.fn("tuple", *v)
+                if not is_rat(v):
+                    return v if is_unknown(v) else Unknown("comparison of non-values")
+                vals.append(v)
+            links = [F.fn("cmp:" + type(op).__name__, vals[i], vals[i + 1]) for i, op in enumerate(node.ops)]
+            return links[0] if len(links) == 1 else F.fn("bool:And", *links)
         return super()._ev(node)
 
     def _ite(self, t, a, b):
@@ -762,6 +769,8 @@ class Interp(AutoEvaluator):
             if p is not None:
                 return p
         if name in IDENT_CALLS and pos and is_rat(pos[0]):
+            if self.tag_conversions and self.arr_of(pos[0]) is None and not (unfn(pos[0]) and unfn(pos[0])[0] == "arr"):
+                return F.fn("arr", pos[0])           # array_like -> ndarray: kept visible (idempotent; an array object stays itself)
             return pos[0]
         if recv is not None and name[1:] in IDENT_METHODS and is_rat(recv) and not pos:
             return recv
